@@ -24,7 +24,8 @@ def run(tier):
     # schedule dimension: registrations driven from outside the owning thread (engine E1)
     b1 = e1.build('C06', 'h_c06_e1', ['harness/C06/h_c06_e1.c'])
     bp = 2 if tier == 'quick' else 3
-    e1.run_jobs(rep, b1, [('outside/dispatch', bp, 2), ('outside/oneshot', bp, 2), ('outside/persistent-drain', bp, 2)], tier,
+    e1.run_jobs(rep, b1, [('outside/dispatch', bp, 2), ('outside/oneshot', bp, 2), ('outside/persistent-drain', bp, 2),
+                          ('rebind/oneshot-read', bp, 2), ('rebind/deleted-read', bp, 2)], tier,
                 job_deadline_s=(300 if tier == 'quick' else 1500))
     h = rep.stats.get('history', {})
     rep.extra['states'] = int(h.get('run', 0))
@@ -35,7 +36,7 @@ def run(tier):
     r_e2 = core.make_replayer(lambda cfg: b, tier, extra_args=['--depth', str(depth)])
 
     def replayer(target, clause, idx, config):
-        if target.startswith('outside/'):
+        if target.startswith('outside/') or target.startswith('rebind/'):
             import subprocess
             hits = 0
             for _ in range(2):
@@ -43,7 +44,7 @@ def run(tier):
                 hits += any(l.split('\t')[:3] == ['VIOL', target, clause] for l in p.stdout.decode('utf-8', 'replace').splitlines())
             return hits == 2
         return r_e2(target, clause, idx, config)
-    rep.extra['e1_executions'] = int(sum(rep.stats.get(t, {}).get('run', 0) for t in ('outside/dispatch', 'outside/oneshot', 'outside/persistent-drain')))
+    rep.extra['e1_executions'] = int(sum(rep.stats.get(t, {}).get('run', 0) for t in ('outside/dispatch', 'outside/oneshot', 'outside/persistent-drain', 'rebind/oneshot-read', 'rebind/deleted-read')))
     rep.finish(replayer)
 
 
